@@ -30,7 +30,10 @@ RANDOM_CFGS_MORE = ["shard(replica,replica)", "overlay(gate,blobpacked)", "names
 
 # receive || remove of the same blob is not atomic in these stores (known findings F-H31, F-H20d, reproduced by
 # deterministic schedules): their random programs contain no remove, so that every other discrepancy stays visible
-NOREMOVE = {"overlay", "diskpacked"}
+NOREMOVE = {"diskpacked"}
+# receive || remove of the same blob is not atomic in these either (F-H31, F-H26b, deterministic schedules): their random
+# programs never receive and remove the same blob concurrently (-split), every other combination is exercised
+SPLIT = {"overlay", "replica"}
 
 
 def cfg_class(cfg):
@@ -110,7 +113,7 @@ def run(ctx, replay):
         ctx.tlc_check("MC_IndexOOO", "IndexOOO.cfg", overrides={"AllowRestart": "FALSE", "Threads": "{1, 2, 3}"}, workers=14, timeout=1800)
     tot_s = tot_e = 0
     # ---- G: deterministic schedules from the counterexamples
-    for sc in ("h11", "h23", "h31", "h20"):
+    for sc in ("h11", "h23", "h31", "h20", "h26b"):
         out = ctx.path("sched_%s.ndjson" % sc)
         rc, so, se = ctx.run([drv, "-sched", sc, "-out", out], timeout=300, ok_codes=(0, 66))
         races(ctx, "sched:" + sc, se)
@@ -138,15 +141,23 @@ def run(ctx, replay):
     ctx.sample({"schedule_h11": "cache.Fetch@A(miss) origin.Fetch@A(hit) | cache.Remove@A origin.Remove@A [remove acked] | cache.Receive@A -> later fetch serves A"})
     # ---- T: random concurrent clients under the race detector
     cfgs = RANDOM_CFGS_QUICK + ([] if quick else RANDOM_CFGS_MORE)
-    shapes = [(2, 6, 12), (3, 5, 10), (4, 4, 6)] if quick else [(2, 8, 40), (3, 6, 40), (4, 5, 30), (8, 3, 20), (16, 2, 10)]
+    # (clients, ops per client, segments, blobs)
+    shapes = [(2, 6, 12, 3, ""), (3, 5, 10, 4, ""), (4, 4, 6, 3, ""), (4, 10, 12, 5, "enumrm")] if quick else \
+        [(2, 8, 40, 3, ""), (3, 6, 40, 5, ""), (4, 5, 30, 4, ""), (8, 3, 20, 4, ""), (16, 2, 10, 3, ""), (4, 10, 40, 5, "enumrm"), (4, 12, 30, 6, "enumrm"), (3, 12, 30, 6, "enumrm")]
+
+    if os.environ.get("VERIF_C14_CFGS"):  # development aid: only these configurations
+        cfgs = os.environ["VERIF_C14_CFGS"].split(";")
+    if os.environ.get("VERIF_C14_MIX"):  # development aid: only the shapes of one operation mix
+        shapes = [sh for sh in shapes if sh[4] == os.environ["VERIF_C14_MIX"]]
 
     def work(cfg):
         res = []
-        for (cl, ops, segs) in shapes:
+        for (cl, ops, segs, nb, mix) in shapes:
             safe = re.sub(r"[^A-Za-z0-9]+", "_", cfg)
-            out = ctx.path("rnd_%s_%d.ndjson" % (safe, cl))
+            out = ctx.path("rnd_%s_%d%s.ndjson" % (safe, cl, mix))
             rc, so, se = ctx.run([drv, "-cfg", cfg, "-out", out, "-seed", str(ctx.seed * 100 + cl), "-clients", str(cl), "-ops", str(ops),
-                                  "-segments", str(segs), "-blobs", "3"] + (["-noremove"] if cfg_class(cfg).split("(")[0] in NOREMOVE else []),
+                                  "-segments", str(segs), "-blobs", str(nb), "-mix", mix] + (["-noremove"] if any(k in cfg for k in NOREMOVE) else [])
+                                  + (["-split"] if any(k in cfg for k in SPLIT) else []),
                                  timeout=900, ok_codes=None)
             if rc not in (0, 66):
                 pm = re.search(r"panic: (.*)", se) or re.search(r"fatal error: (.*)", se)
@@ -157,7 +168,7 @@ def run(ctx, replay):
                     continue
                 raise vlib.MachineryError("c14 driver failed on %s rc=%s: %s" % (cfg, rc, se[-1500:]))
             nr = races(ctx, cfg, se)
-            s, e = validate(ctx, cfg, out, "random/%dclients" % cl)
+            s, e = validate(ctx, cfg, out, "random/%dclients%s" % (cl, "/" + mix if mix else ""))
             os.remove(out)
             res.append((s, e, nr))
         return cfg, res
